@@ -630,6 +630,12 @@ impl Report {
             stats.wall_s,
             if held { "" } else { "  ** VIOLATION **" }
         );
+        if std::env::var_os("VERIF_LABELS").is_some() {
+            // development aid: the section's label histogram (it is in the evidence file of a full run)
+            for (k, v) in &stats.classes {
+                eprintln!("    {v:>9}  {k}");
+            }
+        }
         self.sections.push(stats);
         held
     }
